@@ -672,7 +672,16 @@ impl<R: RoleX, T: IsPacketId> Sess<R, T> {
             return;
         }
         let Some((fh, body)) = split_frame(bytes) else { return };
-        let Ok(pkt) = parse_frame::<T>(ver, fh, &body) else { return };
+        // (the packet is made by the library's own parser: a panic in there is a finding, not a harness crash)
+        let pkt = match catch_unwind(AssertUnwindSafe(|| parse_frame::<T>(ver, fh, &body))) {
+            Ok(Ok(p)) => p,
+            Ok(Err(_)) => return,
+            Err(_) => {
+                let op = format!("send {} {}", ver, hex(bytes));
+                self.line(&op, "-", Err(()));
+                return;
+            }
+        };
         let mut op = format!("send {} {}", ver, hex(bytes));
         let oracle = descr(&pkt);
         let mut via_checked = false;
